@@ -74,7 +74,8 @@ def keep(d, pid, tier='quick'):
         print('NOT CONFIRMED', json.dumps(c, indent=1))
         return
     r = run(d, pid, tier)
-    name = '%s_%s' % (pid, os.path.basename(d))
+    rnd = os.path.basename(os.path.dirname(d))
+    name = '%s_%s%s' % (pid, (rnd.split('_')[0].lower() + '_') if '_' in rnd else '', os.path.basename(d))
     dst = os.path.join('/verif/seeded', name)
     os.makedirs(dst, exist_ok=True)
     for f in ('patch.diff', 'demo.py'):
